@@ -146,6 +146,50 @@ func init() {
 		e.shapeDef(s, eng, "engine.use", "engineUseShape")
 		e.shapeDef(s, eng, "engine.addRoutes", "engineAddRoutesShape")
 		e.shapeDef(s, eng, "convertMiddleware", "convertMiddlewareShape")
+
+		// ---- round 5: the decrypters of a route group, the delegating constructors
+		c18KeyLoop(s, e, eng, "engine.signatureVerifier", "svLoadDecrypters", "svGateMap")
+		c18CallArgs(s, e, csh, "ContentSecurityHandler", "LimitContentSecurityHandler", "contentSecurityWrapperArgs")
+		c18CallArgs(s, e, sec, "ParseContentSecurity", "decrypter.DecryptBase64", "decryptBase64Args")
+		c18CallArgs(s, e, sec, "ParseContentSecurity", "httpx.ParseHeader", "parseHeaderArgs")
+		c18CallArgs(s, e, csh, "LimitContentSecurityHandler", "security.ParseContentSecurity", "parseContentSecurityArgs")
+		c18CallArgs(s, e, hm, "HmacBase64", "Hmac", "hmacCallArgs")
+		c18CallArgs(s, e, hm, "Hmac", "io.WriteString", "hmacWriteArgs")
+		c18ClosureAssigns(s, e, auth, "WithPrevSecret", "withPrevSecretAssigns")
+		c18ClosureAssigns(s, e, auth, "WithUnauthorizedCallback", "authWithCallbackAssigns")
+		c18ClosureAssigns(s, e, srv, "WithUnsignedCallback", "withUnsignedCallbackCalls")
+
+		// ---- round 5: whole bodies as DECISION functions: which effects run, in order, for every outcome of the conditions
+		c18Effects(s, e, c18EffSpec{rel: auth, fn: "Authorize", lean: "authorizeEffects", depth: 2,
+			params: "(parseErr tokValid claimsOk : Bool)",
+			conds:  map[string]string{"err != nil": "parseErr", "!tok.Valid": "(!tokValid)", "!ok": "(!claimsOk)"},
+			effects: map[string]string{"parser.ParseToken": "", "unauthorized": "", "next.ServeHTTP": ""},
+			skip:    map[string]bool{"r.Context": true, "range claims": true, "tok.Claims.(jwt.MapClaims)": true}})
+		c18Effects(s, e, c18EffSpec{rel: auth, fn: "unauthorized", lean: "unauthorizedEffects", depth: 0,
+			params: "(hasErr hasCallback : Bool)",
+			conds:  map[string]string{"err != nil": "hasErr", "callback != nil": "hasCallback"},
+			effects: map[string]string{"callback": "", "writer.WriteHeader": ""},
+			skip:    map[string]bool{"response.NewHeaderOnceResponseWriter": true, "detailAuthLog": true}})
+		c18Effects(s, e, c18EffSpec{rel: csh, fn: "LimitContentSecurityHandler", lean: "csGateEffects", depth: 2,
+			params: "(method : String) (parseErr pass hasBody encrypted : Bool)",
+			conds: map[string]string{"err != nil": "parseErr", "code != httpx.CodeSignaturePass": "(!pass)",
+				"r.ContentLength != 0 && header.Encrypted()": "(hasBody && encrypted)"},
+			tags:    map[string]string{"r.Method": "method"},
+			effects: map[string]string{"security.ParseContentSecurity": "", "security.VerifySignature": "", "executeCallbacks": "",
+				"LimitCryptionHandler(limitBytes, header.Key)(next).ServeHTTP": "", "next.ServeHTTP": ""},
+			skip: map[string]bool{"logc.Errorf": true}})
+		c18Effects(s, e, c18EffSpec{rel: csh, fn: "handleVerificationFailure", lean: "verificationFailureEffects", depth: 0,
+			params:  "(strict : Bool)",
+			conds:   map[string]string{"strict": "strict"},
+			effects: map[string]string{"w.WriteHeader": "", "next.ServeHTTP": ""}})
+		c18Effects(s, e, c18EffSpec{rel: csh, fn: "executeCallbacks", lean: "executeCallbacksEffects", depth: 0,
+			params:  "",
+			effects: map[string]string{"range callbacks": "", "callback": ""}})
+		c18Effects(s, e, c18EffSpec{rel: cry, fn: "LimitCryptionHandler", lean: "cryptionEffects", depth: 2,
+			params:  "(noBody decryptErr : Bool)",
+			conds:   map[string]string{"r.ContentLength == 0": "noBody", "err != nil": "decryptErr"},
+			effects: map[string]string{"defer cw.flush": "", "decryptBody": "", "w.WriteHeader": "", "next.ServeHTTP": ""},
+			skip:    map[string]bool{"newCryptionResponseWriter": true}})
 	})
 }
 
@@ -689,4 +733,295 @@ func c18VerifierKind(s *source, e *emitter, rel, fn, lean string) {
 		return
 	}
 	e.printf("/-- the decision list of `%s` (%s) -/\ndef %s (enabled : Bool) (nkeys : Int) (strict : Bool) : String :=\n  %s\n\n", fn, rel, lean, body)
+}
+
+// ---- round 5 helpers ----
+
+// c18KeyLoop translates the key loading of signatureVerifier into a Lean function of the loader and the group's key list:
+//   m := make(map[string]codec.RsaDecrypter)            a map made fresh for this call
+//   for _, key := range signature.PrivateKeys {          the GROUP's own keys, in order
+//       [a := key.Field]*  d, err := codec.NewRsaDecrypter(x); if err != nil { return nil, err }  m[y] = d
+//   }
+// and nothing else may write the map. Emits also the name of the map (the gate's second argument is tied to it).
+func c18KeyLoop(s *source, e *emitter, rel, fn, lean, leanMap string) {
+	fd := s.findFunc(rel, fn)
+	if fd == nil {
+		c18Fail(e, lean, "function "+fn+" not found in "+rel)
+		e.stringList(leanMap, "MISSING", []string{"MISSING"})
+		return
+	}
+	fail := func(msg string) {
+		c18Fail(e, lean, fn+": key loop: "+msg)
+		e.stringList(leanMap, "MISSING", []string{"MISSING"})
+	}
+	proj := map[string]string{"Fingerprint": "key.1", "KeyFile": "key.2"}
+	mapName := ""
+	var loop *ast.RangeStmt
+	for i, st := range fd.Body.List {
+		as, ok := st.(*ast.AssignStmt)
+		if !ok || as.Tok != token.DEFINE || len(as.Lhs) != 1 || len(as.Rhs) != 1 {
+			continue
+		}
+		call, ok := as.Rhs[0].(*ast.CallExpr)
+		if !ok || s.src(call.Fun) != "make" || len(call.Args) != 1 || s.src(call.Args[0]) != "map[string]codec.RsaDecrypter" {
+			continue
+		}
+		mapName = s.src(as.Lhs[0])
+		if i+1 < len(fd.Body.List) {
+			loop, _ = fd.Body.List[i+1].(*ast.RangeStmt)
+		}
+		break
+	}
+	if mapName == "" {
+		fail("no `m := make(map[string]codec.RsaDecrypter)` made for the call")
+		return
+	}
+	if loop == nil || s.src(loop.X) != "signature.PrivateKeys" || loop.Key == nil || s.src(loop.Key) != "_" || loop.Value == nil {
+		fail("the statement after the map is not `for _, key := range signature.PrivateKeys`")
+		return
+	}
+	v := s.src(loop.Value)
+	alias := map[string]string{}
+	resolve := func(x ast.Expr) string {
+		src := s.src(x)
+		if a, ok := alias[src]; ok {
+			return a
+		}
+		if strings.HasPrefix(src, v+".") {
+			return proj[strings.TrimPrefix(src, v+".")]
+		}
+		return ""
+	}
+	loaded := map[string]string{} // decrypter variable -> projection of the file it was loaded from
+	fileProj, fpProj := "", ""
+	pendingErr := false
+	for _, st := range loop.Body.List {
+		switch x := st.(type) {
+		case *ast.AssignStmt:
+			switch {
+			case x.Tok == token.DEFINE && len(x.Lhs) == 1 && len(x.Rhs) == 1 && resolve(x.Rhs[0]) != "":
+				alias[s.src(x.Lhs[0])] = resolve(x.Rhs[0])
+			case x.Tok == token.DEFINE && len(x.Lhs) == 2 && len(x.Rhs) == 1 && s.src(x.Lhs[1]) == "err":
+				call, ok := x.Rhs[0].(*ast.CallExpr)
+				if !ok || s.src(call.Fun) != "codec.NewRsaDecrypter" || len(call.Args) != 1 || resolve(call.Args[0]) == "" {
+					fail("unexpected statement " + s.src(st))
+					return
+				}
+				loaded[s.src(x.Lhs[0])] = resolve(call.Args[0])
+				pendingErr = true
+			case x.Tok == token.ASSIGN && len(x.Lhs) == 1 && len(x.Rhs) == 1:
+				ix, ok := x.Lhs[0].(*ast.IndexExpr)
+				if !ok || s.src(ix.X) != mapName || resolve(ix.Index) == "" || loaded[s.src(x.Rhs[0])] == "" || pendingErr || fpProj != "" {
+					fail("unexpected statement " + s.src(st))
+					return
+				}
+				fpProj, fileProj = resolve(ix.Index), loaded[s.src(x.Rhs[0])]
+			default:
+				fail("unexpected statement " + s.src(st))
+				return
+			}
+		case *ast.IfStmt:
+			if !pendingErr || x.Init != nil || x.Else != nil || s.src(x.Cond) != "err != nil" || len(x.Body.List) != 1 ||
+				s.src(x.Body.List[0]) != "return nil, err" {
+				fail("unexpected statement " + s.src(st))
+				return
+			}
+			pendingErr = false
+		default:
+			fail("unexpected statement " + s.src(st))
+			return
+		}
+	}
+	if fpProj == "" || pendingErr {
+		fail("no `" + mapName + "[…] = decrypter` after a checked load")
+		return
+	}
+	// nothing else writes the map
+	writes := 0
+	ast.Inspect(fd.Body, func(n ast.Node) bool {
+		if as, ok := n.(*ast.AssignStmt); ok {
+			for _, l := range as.Lhs {
+				if ix, ok := l.(*ast.IndexExpr); ok && s.src(ix.X) == mapName {
+					writes++
+				} else if s.src(l) == mapName {
+					writes++
+				}
+			}
+		}
+		return true
+	})
+	if writes != 2 {
+		fail(fmt.Sprintf("the map is written %d times (expected: made once, one store in the loop)", writes))
+		return
+	}
+	e.printf("/-- the key loading of `%s` (%s): a map made for the call, one store per key of `signature.PrivateKeys` in order, a failed load ends it -/\n", fn, rel)
+	e.printf("def %s {D : Type} (load : String → Option D) (keys : List (String × String)) : Option (List (String × D)) :=\n  keys.foldl (fun acc key => acc.bind fun m => (load %s).map fun d => m ++ [(%s, d)]) (some [])\n\n", lean, fileProj, fpProj)
+	e.stringList(leanMap, "the map `"+fn+"` fills (and hands to the gate)", []string{mapName})
+}
+
+// c18EffSpec: a function (or the closure `depth` function literals inside it) translated into a DECISION function:
+// `def lean params : List String` = the effects (calls named in `effects`, with their argument text) that run, in order,
+// for every outcome of the conditions. Conditions are translated through `conds` (Go source → Lean Bool), a `switch` on a
+// tag of `tags` with cases `http.MethodX` becomes a membership test. Early returns cut the rest; calls in `skip` (logging,
+// plumbing) are left out; ANY other statement is an extraction error.
+type c18EffSpec struct {
+	rel, fn, lean, params string
+	depth                 int
+	conds, tags, effects  map[string]string
+	skip                  map[string]bool
+}
+
+func c18Effects(s *source, e *emitter, sp c18EffSpec) {
+	fd := s.findFunc(sp.rel, sp.fn)
+	if fd == nil {
+		c18Fail(e, sp.lean, "function "+sp.fn+" not found in "+sp.rel)
+		return
+	}
+	body := fd.Body
+	for d := 0; d < sp.depth; d++ {
+		var inner *ast.FuncLit
+		ast.Inspect(body, func(n ast.Node) bool {
+			if fl, ok := n.(*ast.FuncLit); ok && inner == nil {
+				inner = fl
+				return false
+			}
+			return inner == nil
+		})
+		if inner == nil {
+			c18Fail(e, sp.lean, sp.fn+": no closure at depth "+fmt.Sprint(d+1))
+			return
+		}
+		body = inner.Body
+	}
+	var bad string
+	fail := func(st ast.Node, why string) string {
+		if bad == "" {
+			bad = why + ": " + strings.SplitN(s.src(st), "\n", 2)[0]
+		}
+		return "[]"
+	}
+	// an effect for a call expression: "" = not an effect
+	callEffect := func(x ast.Expr, prefix string) (string, bool, bool) { // text, isEffect, isSkipped
+		call, ok := x.(*ast.CallExpr)
+		if !ok {
+			if sp.skip[s.src(x)] {
+				return "", false, true
+			}
+			return "", false, false
+		}
+		name := prefix + s.src(call.Fun)
+		if _, ok := sp.effects[name]; ok {
+			var args []string
+			for _, a := range call.Args {
+				args = append(args, s.src(a))
+			}
+			return name + "(" + strings.Join(args, ", ") + ")", true, false
+		}
+		if sp.skip[name] {
+			return "", false, true
+		}
+		return "", false, false
+	}
+	var trans func(list []ast.Stmt) string
+	one := func(x ast.Expr, st ast.Stmt, prefix string, rest []ast.Stmt) string {
+		txt, isEff, isSkip := callEffect(x, prefix)
+		switch {
+		case isEff:
+			return "(" + leanString(txt) + " :: " + trans(rest) + ")"
+		case isSkip:
+			return trans(rest)
+		}
+		return fail(st, "statement outside the translated subset")
+	}
+	trans = func(list []ast.Stmt) string {
+		if len(list) == 0 {
+			return "[]"
+		}
+		st, rest := list[0], list[1:]
+		switch x := st.(type) {
+		case *ast.ReturnStmt:
+			if len(x.Results) == 0 {
+				return "[]"
+			}
+			return fail(st, "return with a value")
+		case *ast.ExprStmt:
+			return one(x.X, st, "", rest)
+		case *ast.DeferStmt:
+			return one(x.Call, st, "defer ", rest)
+		case *ast.AssignStmt:
+			if len(x.Rhs) != 1 {
+				return fail(st, "assignment")
+			}
+			return one(x.Rhs[0], st, "", rest)
+		case *ast.BlockStmt:
+			return trans(append(append([]ast.Stmt{}, x.List...), rest...))
+		case *ast.IfStmt:
+			if x.Init != nil {
+				// the init statement runs first, then the condition is consulted
+				cp := *x
+				cp.Init = nil
+				return trans(append([]ast.Stmt{x.Init, &cp}, rest...))
+			}
+			c, ok := sp.conds[s.src(x.Cond)]
+			if !ok {
+				return fail(st, "condition not in the table")
+			}
+			a := trans(append(append([]ast.Stmt{}, x.Body.List...), rest...))
+			b := trans(rest)
+			if x.Else != nil {
+				b = trans(append([]ast.Stmt{x.Else}, rest...))
+			}
+			return "(if " + c + " then " + a + " else " + b + ")"
+		case *ast.SwitchStmt:
+			if x.Init != nil || x.Tag == nil {
+				return fail(st, "switch")
+			}
+			tag, ok := sp.tags[s.src(x.Tag)]
+			if !ok {
+				return fail(st, "switch tag not in the table")
+			}
+			out := ""
+			dflt := trans(rest)
+			var arms [][2]string
+			for _, cs := range x.Body.List {
+				cc := cs.(*ast.CaseClause)
+				bodyT := trans(append(append([]ast.Stmt{}, cc.Body...), rest...))
+				if cc.List == nil {
+					dflt = bodyT
+					continue
+				}
+				var vals []string
+				for _, v := range cc.List {
+					src := s.src(v)
+					if !strings.HasPrefix(src, "http.Method") {
+						return fail(st, "case value")
+					}
+					vals = append(vals, leanString(strings.ToUpper(strings.TrimPrefix(src, "http.Method"))))
+				}
+				arms = append(arms, [2]string{"([" + strings.Join(vals, ", ") + "].contains " + tag + ")", bodyT})
+			}
+			out = dflt
+			for i := len(arms) - 1; i >= 0; i-- {
+				out = "(if " + arms[i][0] + " then " + arms[i][1] + " else " + out + ")"
+			}
+			return out
+		case *ast.RangeStmt:
+			name := "range " + s.src(x.X)
+			if sp.skip[name] {
+				return trans(rest)
+			}
+			if _, ok := sp.effects[name]; ok {
+				// every element, in order: the body's effects once, marked as repeated
+				return "(" + leanString(name) + " :: (" + trans(x.Body.List) + " ++ " + trans(rest) + "))"
+			}
+			return fail(st, "loop")
+		}
+		return fail(st, "statement outside the translated subset")
+	}
+	expr := trans(body.List)
+	if bad != "" {
+		c18Fail(e, sp.lean, sp.fn+": "+bad)
+		return
+	}
+	e.printf("/-- the effects of `%s` (%s), in order, for every outcome of its conditions -/\ndef %s %s : List String :=\n  %s\n\n", sp.fn, sp.rel, sp.lean, sp.params, expr)
 }
